@@ -191,6 +191,7 @@ type invRec struct {
 	kind string
 	t    *Term
 	s    *Str
+	re   *reModel // kind "re": the expression object whose String() produced the text
 }
 
 type specAbort struct{}
